@@ -34,6 +34,7 @@ package util
 //gvc:  props C09 C53
 //gvc:  theory bv
 //gvc:  results size err
+//gvc:  opt nomerge
 //gvc:  loop 1 unroll 10
 //gvc:  let p0 = reader.#pos
 //gvc:  ensures single: first & 0x80 == 0 ==> err == nil && size == first & 0x0f && reader.#pos == p0
